@@ -559,3 +559,25 @@ def r15_10(ctx):
         rets = [r.value for r in walk_no_nested(f.node) if isinstance(r, ast.Return) and r.value is not None]
         good = {K(g.replace("other", o)) for g in ("self + -other", "-other + self", "self.common(other, lambda a, b: a - b)", "self.__add__(-other)")}
         ctx.check(len(rets) == 1 and Norm(None).key(rets[0]) in good, "BSpline.__sub__ computes self - other", detail="operand order of the subtraction", expected="return self + (-other)", found="; ".join(ast.unparse(r) for r in rets), fi=f)
+
+
+@rule("R15.11", min_instances=1, desc="SplineMethod bounds grid='inf' rows on the B-spline coefficients block by block (one block per coefficient width): a row that combines signals of different width must be rejected (or brought to a common basis) before the blocks are imposed with the row's full bounds")
+def r15_11(ctx):
+    """D87: `p + v <= 1` with der(p) = v became coeffs(p) <= 1 and coeffs(v) <= 1 separately: max (p+v)(t) = 1.77, solver success."""
+    P = ctx.prog
+    f = P.own_method("SplineMethod", "add_constraints_inf")
+    sc = ctx.scope(f)
+    def over_widths(l):
+        return isinstance(l, ast.For) and "unique_widths" in ast.unparse(l.iter)
+    imposing = [l for l in walk_no_nested(f.node) if over_widths(l) and any(isinstance(c, ast.Call) and isinstance(c.func, ast.Attribute) and c.func.attr == "subject_to" for c in ast.walk(l))]
+    if not imposing:
+        # no block-wise imposition any more (e.g. degree elevation to a common basis): nothing to guard
+        ctx.ok("SplineMethod.add_constraints_inf does not impose 'inf' rows block by block", fi=f)
+        return
+    l = imposing[0]
+    # the row's own bounds enter every block: lb[rows] .. ub[rows] inside the loop
+    full_bounds = any(isinstance(c, ast.Call) and isinstance(c.func, ast.Attribute) and c.func.attr == "subject_to" and "lb" in ast.unparse(c) and "ub" in ast.unparse(c) for c in ast.walk(l))
+    guards = [st for st in walk_no_nested(f.node) if isinstance(st, (ast.Raise, ast.Assert)) and sc.order[st] < sc.order[l]
+              and any("width" in ast.unparse(t) for t, _ in sc.path_guards(st)) or (isinstance(st, ast.Assert) and sc.order[st] < sc.order[l] and "width" in ast.unparse(st.test))]
+    ctx.check(bool(guards) or not full_bounds, "SplineMethod.add_constraints_inf rejects a row that combines signals of different coefficient width", detail="each width block is bounded with the row's full bounds and the sum with none: `p + der(p) <= 1` is certified as p <= 1 and der(p) <= 1",
+              expected="an exception (or a common basis) before the per-width loop when a row has entries in more than one width", found="per-width loop at line %d without a preceding width check" % l.lineno, fi=f, node=l)
